@@ -9,6 +9,7 @@ import (
 	"fmt"
 	"os"
 
+	"github.com/facebookincubator/dns/dnsrocks/db"
 	"github.com/facebookincubator/dns/dnsrocks/dnsserver"
 	"github.com/miekg/dns"
 
@@ -20,6 +21,7 @@ type replayFile struct {
 	Fingerprint string `json:"fingerprint"`
 	Replay      struct {
 		Backend  string `json:"backend"`
+		Store    string `json:"store"`
 		Config   string `json:"config"`
 		Data     string `json:"data"`
 		Cache    bool   `json:"cache"`
@@ -66,6 +68,7 @@ func runReplay(dir, path string) {
 			q = x
 		}
 	}
+	db.SeparateBitMap = rf.Replay.Store == storeCDBPerFamily
 	p, err := dnsfix.Compile(dir, backend, []byte(rf.Replay.Data))
 	if err != nil {
 		vlib.Infra("replay: compile: %v", err)
